@@ -262,6 +262,35 @@ CLAIMED['C12'] = dict(
               'abstract equality theorem + exploration of all source/sink kinds on the real code',
     ref='DESIGN.md 7 (C12)')
 
+CLAIMED['C11'] = dict(
+    text='Lean 4 theorems on a heap machine (classes with MRO lookup, instances, tables; levels base / '
+         'function / call) whose programs are regenerated on every run from the source: the five '
+         'factories with add_to_loader / set_document_type / add_to_dumper inlined, PyYAML\'s own '
+         'add_constructor / add_representer class methods (parsed from the installed PyYAML), '
+         'Loader.__init__ with __patch_floats / __patch_bools and Dumper.__init__, over the live class '
+         'hierarchy and class-level registries after import. Generic theorems (for every program set '
+         'the checker accepts): explore_sound (every run, any loop counts, ends in an explored state), '
+         'runProg_frame (a clean run leaves lower levels untouched) and run_inv: for every history of '
+         'creating and calling functions the base heap is never written, every function\'s region is '
+         'what its factory builds in isolation, every call starts from the same state and changes '
+         'nothing. The checker is evaluated in the kernel on the regenerated programs, together with '
+         'the translator\'s completeness lists (nothing untranslated; no other write to shared state in '
+         'the package: census of attribute/subscript stores, mutating calls, globals, caches, '
+         'class-level mutable attributes). Tie: where each registry attribute of the generated class '
+         'and of a live Loader/Dumper instance resolves (own / which base table / shared lists) is '
+         'compared with the model; random histories of functions over different and same-named '
+         'classes, valid, invalid and aborted calls, 4 threads: every result equals the isolated '
+         'result, base registries (identity, keys, list lengths), yaml.safe_load/safe_dump probes, '
+         'module- and class-level containers of yatiml and the user classes are unchanged.',
+    note=NOTE_COMMON + 'PyYAML\'s __init__ chain only sets instance attributes; thread interleaving at '
+         'the level of CPython bytecode (GIL) is exercised with 4 threads, not proved; table contents '
+         '(which tag maps to which constructor) are not in the heap model - isolation of contents '
+         'follows from isolation of the tables.',
+    technique='Lean 4 proof (frame rule + invariant by induction over histories, reflective checker '
+              'evaluated by decide +kernel on programs translated from the source) + shape '
+              'correspondence with live objects + history/thread exploration on the real code',
+    ref='DESIGN.md 7 (C11)')
+
 NOT_YET = 'check not built yet in this round (planned proof: DESIGN.md section 7)'
 
 
